@@ -1297,3 +1297,20 @@ V("c10f-factors-reordered-loop-renamed", "C10", "silent",
 V("c10f-guard-as-positive-test", "C10", "silent",
   (PLIN, "            if first_nonzero_index != row_index:\n                continue\n\n            subspace_grad[idx, jdx] += (\n                previous_subspace_representation[\n                    first_subspace_indices[idx],\n                    subspace_indices[jdx, col_index],\n                ]\n                * sqrt_occupation_numbers[jdx, col_index]\n            )",
    "            if first_nonzero_index == row_index:\n                subspace_grad[idx, jdx] += (\n                    previous_subspace_representation[\n                        first_subspace_indices[idx],\n                        subspace_indices[jdx, col_index],\n                    ]\n                    * sqrt_occupation_numbers[jdx, col_index]\n                )"))
+
+# ------------------------------------------------------------------------------------------- C15d (session 5): Williamson recomposition
+DECOMP = "piquasso/_math/decompositions.py"
+V("c15d-symplectic-from-inverse-root", "C15", {"rule": "C15d", "contains": "S D S^T == M"},
+  (DECOMP, "        root_matrix @ orthogonal_part @ basis_change @ root_inverse_diagonal_matrix", "        inverse_root_matrix @ orthogonal_part @ basis_change @ root_inverse_diagonal_matrix"))
+V("c15d-diagonal-not-inverted", "C15", {"rule": "C15d", "contains": "S D S^T == M"},
+  (DECOMP, "    diagonal_matrix = np.diag(1 / np.diag(inverse_diagonal_matrix))", "    diagonal_matrix = np.diag(np.diag(inverse_diagonal_matrix))"))
+V("c15d-root-missing-sqrt", "C15", {"rule": "C15d", "contains": "S D S^T == M"},
+  (DECOMP, "    root_inverse_diagonal_matrix = np.diag(np.sqrt(np.diag(inverse_diagonal_matrix)))", "    root_inverse_diagonal_matrix = np.diag(np.diag(inverse_diagonal_matrix))"))
+V("c15d-schur-of-root-omega-root", "C15", {"rule": "C15d", "contains": "schur argument"},
+  (DECOMP, "        inverse_root_matrix @ omega @ inverse_root_matrix,", "        root_matrix @ omega @ root_matrix,"))
+V("c15d-basis-applied-transposed", "C15", {"rule": "C15d", "contains": "S D S^T == M"},
+  (DECOMP, "        root_matrix @ orthogonal_part @ basis_change @ root_inverse_diagonal_matrix", "        root_matrix @ basis_change @ orthogonal_part @ root_inverse_diagonal_matrix @ basis_change.T"))
+V("c15d-diagonal-by-negative-power", "C15", "silent",
+  (DECOMP, "    diagonal_matrix = np.diag(1 / np.diag(inverse_diagonal_matrix))", "    diagonal_matrix = np.diag(np.diag(inverse_diagonal_matrix) ** -1.0)"))
+V("c15d-factors-through-locals", "C15", "silent",
+  (DECOMP, "        root_matrix @ orthogonal_part @ basis_change @ root_inverse_diagonal_matrix", "        root_matrix @ (orthogonal_part @ basis_change) @ root_inverse_diagonal_matrix"))
